@@ -3,7 +3,7 @@ EXTENDS AncillarySpec, TLC, Json
 CONSTANTS MaxDepth
 VARIABLES h, c0
 MCKeys == {"lut", "medium", "temperature", "viscosity", "model", "pixel",
-           "framerate", "ct21"}
+           "framerate", "ct21", "ct31"}
 MCVals(k) ==
     CASE k = "lut" -> {"LE-2D-FEM-19"}
       [] k = "medium" -> {"CellCarrier", "other"}
@@ -13,7 +13,8 @@ MCVals(k) ==
       [] k = "pixel" -> {"0.34", "0.5"}
       [] k = "framerate" -> {"2000", "3000"}
       [] k = "ct21" -> {"0.1", "0.2"}
-MCDeletable == {"lut", "medium", "temperature", "viscosity", "model", "ct21"}
+      [] k = "ct31" -> {"0.15", "0.3"}
+MCDeletable == {"lut", "medium", "temperature", "viscosity", "model", "ct21", "ct31"}
 Base == [k \in MCKeys |-> CASE k = "pixel" -> "0.34" [] k = "framerate" -> "2000"
                                [] OTHER -> "absent"]
 With(f, kv) == [k \in MCKeys |-> IF k \in DOMAIN kv THEN kv[k] ELSE f[k]]
@@ -30,6 +31,8 @@ MCPresets == {
     \* everything set, medium "other"
     With(Base, [lut |-> "LE-2D-FEM-19", medium |-> "other", temperature |-> "23",
                 viscosity |-> "5", model |-> "buyukurganci-2022", ct21 |-> "0.1"]),
+    \* crosstalk keys of the channel pair 1-2 and one of the pair 1-3
+    With(Base, [ct21 |-> "0.1", ct31 |-> "0.15"]),
     \* B with explicit medium other
     With(Base, [lut |-> "LE-2D-FEM-19", medium |-> "other", viscosity |-> "5"])}
 MCTempVers == {1, 2}
